@@ -147,7 +147,8 @@ for ci in range(n_runs):
         else:
             keep = [(m, d) for m, d in zip(ms, md) if d["kind"] != "state"] or [(qp.probs(wires=labels), {"kind": "probs", "wires": labels})]
             ms, md = [k[0] for k in keep], [k[1] for k in keep]
-    run = {"labels": labels, "dev_wires": labels, "ops": [repr(o) for o in ops], "meas": md, "status": "ok", "n": nw}
+    run = {"labels": labels, "dev_wires": labels, "ops": [repr(o) for o in ops], "meas": md, "status": "ok", "n": nw,
+           "appear": [labels.index(w) for w in qp.wires.Wires.all_wires([o.wires for o in ops])]}
     runs.append(run)
     try:
         run["circuit"] = exact_circuit_gallina(ops if ref_ops is None else ref_ops, labels)
